@@ -6,7 +6,7 @@ from harness.c01 import chunks
 
 LEVEL = "proof"
 ENTRY = "socialchoicekit.flow.ford_fulkerson"
-HAVE_FLOWCUT = False   # the Lean certificate checker op `flowcut`
+HAVE_FLOWCUT = True   # the Lean certificate checker op `flowcut`
 
 
 @guard
@@ -88,7 +88,7 @@ def judge(R, net, res, ff_ans, cert_ans, tag):
     if mval != want or mcut != sorted(res["cut"]):
         R.corr_break("value and returned vertex set equal the model's (value, minimal min cut)", ENTRY, net,
                      {"value": want, "cut": res["cut"]}, ff_ans)
-    if cert_ans is not None and cert_ans != "ok":
+    if cert_ans is not None and not cert_ans.startswith("ok"):
         R.corr_break("flowCutOk accepts the implementation's (flow, cut)", ENTRY, net, res, cert_ans)
 
 
